@@ -119,7 +119,10 @@ pub struct WorldCfg {
     /// shapes the distribution of generated choices and is never needed for replay.
     pub policy_seed: u64,
     pub pipe_cap: usize,
-    /// Probability (num, den) that one pipe read/write moves fewer bytes than it could.
+    /// PIPE_BUF: writes of at most this many bytes are atomic (all or nothing).
+    pub pipe_buf: usize,
+    /// Probability (num, den) that a non-blocking write larger than PIPE_BUF
+    /// moves fewer bytes than would fit (POSIX allows any partial count there).
     pub short_io: (u64, u64),
     /// Probability that `kill()` of an already dead child reports InvalidInput instead of Ok.
     pub kill_dead_err: (u64, u64),
@@ -139,6 +142,7 @@ impl Default for WorldCfg {
             policy: Policy::Sticky(8),
             policy_seed: 0,
             pipe_cap: 65536,
+            pipe_buf: 4096,
             short_io: (0, 1),
             kill_dead_err: (0, 1),
             alloc_fail: (0, 1),
@@ -165,7 +169,8 @@ pub(crate) struct Pipe {
 #[derive(Clone, Copy, Debug, PartialEq, Eq)]
 pub(crate) enum BlockedOn {
     PipeReadable(usize),
-    PipeWritable(usize),
+    /// Pipe id and the number of free bytes needed.
+    PipeWritable(usize, usize),
     Until(u64),
 }
 
@@ -1058,9 +1063,9 @@ impl Inner {
                 let p = &self.pipes[p];
                 !p.buf.is_empty() || !p.writer_open
             }
-            BlockedOn::PipeWritable(p) => {
+            BlockedOn::PipeWritable(p, need) => {
                 let p = &self.pipes[p];
-                p.buf.len() < p.cap || !p.reader_open
+                p.cap - p.buf.len().min(p.cap) >= need.min(p.cap) || !p.reader_open
             }
             BlockedOn::Until(t) => self.now >= t,
         }
@@ -1111,16 +1116,11 @@ impl Inner {
             }
             return None;
         }
-        let (n, d) = self.cfg.short_io;
-        let less = if n == 0 {
-            0
-        } else {
-            self.chooser.pick_rare(avail as u32, n, d) as usize
-        };
-        if less != 0 {
-            *self.stats.entry("short_read").or_insert(0) += 1;
+        // POSIX: a pipe read returns what is available, up to the request.
+        if avail < buf.len() {
+            *self.stats.entry("partial_read").or_insert(0) += 1;
         }
-        let take = avail - less;
+        let take = avail;
         let p = &mut self.pipes[pipe];
         for b in buf.iter_mut().take(take) {
             *b = p.buf.pop_front().unwrap();
@@ -1132,11 +1132,18 @@ impl Inner {
         Some(Ok(take))
     }
 
-    /// Non-blocking pipe write; `None` means "would block".
+    /// One transfer into a pipe; `None` means "would block".
+    ///
+    /// POSIX semantics: a write of at most PIPE_BUF bytes is atomic (all of it
+    /// or nothing); a larger write moves what fits. On a blocking descriptor
+    /// the caller keeps going until everything is written (see `PipeEnd::write`);
+    /// on a non-blocking one (the async side) a partial count is returned, and
+    /// how much of the available room is used is a seeded decision.
     pub(crate) fn pipe_try_write(
         &mut self,
         pipe: usize,
         data: &[u8],
+        blocking: bool,
         wakers: &mut Vec<Waker>,
     ) -> Option<io::Result<usize>> {
         if !self.pipes[pipe].reader_open {
@@ -1151,21 +1158,32 @@ impl Inner {
             return Some(Ok(0));
         }
         let room = self.pipes[pipe].cap - self.pipes[pipe].buf.len().min(self.pipes[pipe].cap);
-        let can = room.min(data.len());
-        if can == 0 {
-            *self.stats.entry("pipe_full").or_insert(0) += 1;
-            return None;
-        }
-        let (n, d) = self.cfg.short_io;
-        let less = if n == 0 {
-            0
+        let put = if data.len() <= self.cfg.pipe_buf.min(self.pipes[pipe].cap) {
+            if room < data.len() {
+                *self.stats.entry("pipe_full").or_insert(0) += 1;
+                return None;
+            }
+            data.len()
         } else {
-            self.chooser.pick_rare(can as u32, n, d) as usize
+            let can = room.min(data.len());
+            if can == 0 {
+                *self.stats.entry("pipe_full").or_insert(0) += 1;
+                return None;
+            }
+            let (n, d) = self.cfg.short_io;
+            let less = if blocking || n == 0 {
+                0
+            } else {
+                self.chooser.pick_rare(can as u32, n, d) as usize
+            };
+            if less != 0 {
+                *self.stats.entry("short_write").or_insert(0) += 1;
+            }
+            if can - less < data.len() {
+                *self.stats.entry("partial_write").or_insert(0) += 1;
+            }
+            can - less
         };
-        if less != 0 {
-            *self.stats.entry("short_write").or_insert(0) += 1;
-        }
-        let put = can - less;
         let p = &mut self.pipes[pipe];
         p.buf.extend(&data[..put]);
         if let Some(w) = p.read_waker.take() {
@@ -1319,6 +1337,8 @@ impl io::Read for PipeEnd {
 }
 
 impl io::Write for PipeEnd {
+    /// Blocking write: like write(2) on a blocking pipe it returns only when
+    /// every byte has been transferred (or the reader is gone).
     fn write(&mut self, data: &[u8]) -> io::Result<usize> {
         if discard_io() {
             return Ok(data.len());
@@ -1329,21 +1349,39 @@ impl io::Write for PipeEnd {
             return Err(dead_io());
         }
         self.world.thread_yield(&c, None);
+        let mut done = 0usize;
         loop {
             if self.world.thread_is_dead(&c) {
                 die_if_dead_now();
                 return Err(dead_io());
             }
             let mut wakers = Vec::new();
-            let r = self.world.lock().pipe_try_write(self.id, data, &mut wakers);
+            let r = self
+                .world
+                .lock()
+                .pipe_try_write(self.id, &data[done..], true, &mut wakers);
             for w in wakers {
                 w.wake();
             }
             match r {
-                Some(r) => return r,
-                None => self
-                    .world
-                    .thread_yield(&c, Some(BlockedOn::PipeWritable(self.id))),
+                Some(Ok(k)) => {
+                    done += k;
+                    if done >= data.len() {
+                        return Ok(done);
+                    }
+                    self.world
+                        .thread_yield(&c, Some(BlockedOn::PipeWritable(self.id, 1)));
+                }
+                Some(Err(e)) => {
+                    return if done > 0 { Ok(done) } else { Err(e) };
+                }
+                None => {
+                    // An atomic (<= PIPE_BUF) write needs room for all of it.
+                    let rest = data.len() - done;
+                    let need = if rest <= self.world.lock().cfg.pipe_buf { rest } else { 1 };
+                    self.world
+                        .thread_yield(&c, Some(BlockedOn::PipeWritable(self.id, need)))
+                }
             }
         }
     }
@@ -1387,7 +1425,7 @@ impl futures_io::AsyncWrite for PipeEnd {
         let mut wakers = Vec::new();
         let r = {
             let mut g = self.world.lock();
-            let r = g.pipe_try_write(self.id, data, &mut wakers);
+            let r = g.pipe_try_write(self.id, data, false, &mut wakers);
             if r.is_none() {
                 g.pipes[self.id].write_waker = Some(cx.waker().clone());
             }
